@@ -369,6 +369,7 @@ type FuncReport struct {
 	Paths       int
 	NoDecreases []string
 	Returns     int
+	Skipped     string
 }
 
 func (ex *Exec) verifyFunction(fn *ssa.Function) (rep *FuncReport) {
@@ -432,6 +433,10 @@ func (ex *Exec) verifyFunction(fn *ssa.Function) (rep *FuncReport) {
 	}
 	if c.Trusted {
 		rep.Trusted = true
+		return rep
+	}
+	if c.Skip != "" {
+		rep.Skipped = c.Skip
 		return rep
 	}
 	st := &State{Heap: map[string]*Term{}, Mem: map[string]*MemLog{}, Ghost: map[string]*Term{}, Cells: map[*Cell]Value{}, Closures: map[string]*Closure{}, Dirty: map[string]bool{}, DirtyCells: map[*Cell]bool{}, Defs: map[string]bool{}}
@@ -552,6 +557,13 @@ func (ex *Exec) atReturn(fr *Frame, c *Contract, st *State, res Value) {
 				renv.vars[names[0]] = res
 			}
 			renv.vars["result"] = res
+			for _, g := range ic.GhostPars {
+				if v, ok := fr.ghostPar[g]; ok {
+					renv.vars[g] = v
+				} else {
+					renv.vars[g] = specInt(Var("gp."+g, SInt))
+				}
+			}
 			for _, e := range ic.Ensures {
 				ex.oblige(st, "refines@"+strings.TrimPrefix(c.Refines, "iface "), e.Label, mergeProps(e.Props, c.Props), renv.boolTerm(e.Expr), fr.fn.Pos(), ex.fnKey)
 			}
@@ -624,7 +636,7 @@ func (ex *Exec) frameTerms(st *State, ms *ModSet, names []string) []frameTerm {
 			if cur == old {
 				continue
 			}
-			if strings.HasPrefix(name, "box:") || name == "#chanclosed" {
+			if strings.HasPrefix(name, "box:") {
 				continue
 			}
 			if strings.HasPrefix(name, "map") {
